@@ -84,7 +84,10 @@ def enumerate_cases(tier):
         nt = combo["noise_type"]
         for kind, logqp in (("perturb", False), ("perturb", True), ("permute", False)):
             rnd = random.Random(seed * 9001 + idx * 3 + (1 if logqp else 0))
-            spec = {"sde_type": combo["sde_type"], "noise_type": nt, "d": 2, "m": 1 if nt == "scalar" else 2,
+            # sizes rotate over the cells: state size 1 and a single noise channel are legal shapes too
+            d_, m_ = [(2, 2), (1, 1), (3, 2), (1, 2)][(idx + (1 if logqp else 0)) % 4]
+            spec = {"sde_type": combo["sde_type"], "noise_type": nt, "d": d_,
+                    "m": 1 if nt == "scalar" else (d_ if nt == "diagonal" else m_),
                     "batch": rnd.choice([3, 4, 5]), "hidden": 3, "seed": rnd.randrange(2 ** 31), "tdep": True,
                     "fscale": 1.0, "gscale": 0.7, "dtype": "float64"}
             yield {"kind": kind, "spec": spec, "combo": combo, "logqp": logqp, "row": rnd.randrange(6),
@@ -222,11 +225,14 @@ def _run_noise(case):
         return Result(labels=["kind=noise", "no_queries"])
     sig = {"kind": "noise", "levy": cfg["levy"]}
 
+    seed_sizes = {}
+
     def run(bump):
         real = bi._randn
 
         def fake(size, dtype, device, seed):
             out = real(size, dtype, device, seed)
+            seed_sizes.setdefault(int(seed), set()).add(tuple(size))
             if bump and len(size) >= 1 and size[0] == shape[0]:
                 # a different amount for every noise tensor: equal bumps cancel exactly in the right half of a midpoint
                 # bridge (W - left_W), which would look like "row r does not react to its own noise"
@@ -239,7 +245,16 @@ def _run_noise(case):
 
     base, interval = run(False)
     pert, _ = run(True)
-    checks = 0
+    checks = 1
+    shared = [sd for sd, sz in seed_sizes.items() if len(sz) > 1]
+    if shared:
+        # a generator seeded alike produces the same leading numbers whatever the shape: the elements of one noise tensor
+        # are then the elements of other rows of another one
+        return Result(nontrivial=True, checks=checks, fail=Fail(
+            "noise_elements_shared_between_tensors",
+            f"{len(shared)} seed(s) (e.g. {shared[0]}) generate noise tensors of different shapes "
+            f"{sorted(seed_sizes[shared[0]])}: their elements coincide, so an element of one row is driven by the noise "
+            f"element of another row", sig))
     reacted = False
     for (a, b), o1, o2 in zip(queries, base, pert):
         for name, x, y in zip("WUA", o1, o2):
